@@ -7,14 +7,18 @@ the outcome classes the property allows.  Every scenario is replayed with the RE
 deterministic virtual reactor (harness/vreactor.py) and a subset with wide time gaps on a private
 SelectReactor; after every run() the driver compares what the property names: outcome class and value,
 reactor.running, getDelayedCalls(), selectables, junk, reactor.stop, signal.getsignal(INT/TERM/CHLD).
-The `asCoded` variant of the spec (result fields not reset between runs) must make TLC report SecondRun
-violated - the spec-side witness of the stale-result defect the replay finds in the real code.
+Busy-reactor scenarios (a slow callback makes the timeout call, the Deferred's fire/fail call and the stop request
+fire back to back in ONE reactor iteration, in time order) pin down "which comes first" when it is not a tie.
+The `asCoded` variants of the spec (LateIgnored=FALSE: results arriving after a stop request still count;
+ResetsResult=FALSE: the code before 52cf306) must make TLC report ResultRight / SecondRun violated - the
+spec-side witnesses of the defects the replay finds (found) in the real code.
 """
 
 import itertools
 import os
 import signal
 import socket
+import time
 
 from . import tlc
 from .common import Report, jdump, use_repo
@@ -160,6 +164,13 @@ class World:
             st["ran"] = True
             for x in sorted(s["extra"]):
                 made["x%d" % x] = reactor.callLater(x * U, lambda: None)
+            if s["busyAt"] != 99:
+                # a slow callback: the reactor thread is busy for busyDt units; everything falling due meanwhile
+                # is fired back to back in one reactor iteration (task.Clock.advance / runUntilCurrent)
+                if self.real:
+                    made["busy"] = reactor.callLater(s["busyAt"] * U, time.sleep, s["busyDt"] * U)
+                else:
+                    made["busy"] = reactor.callLater(s["busyAt"] * U, lambda: reactor.advance(s["busyDt"] * U))
             for _ in range(s["sel"]):
                 st["sel"] = Sel(self.real)
                 self.sels.append(st["sel"])
@@ -233,11 +244,19 @@ class World:
         if obs not in allowed:
             # the very object (value or exception instance) an earlier run() of this Spinner produced
             stale = any(c == cls and prev is obs_obj for c, prev in self.results)
-            key = "stale-result-of-previous-run" if stale and h["run"] > 1 else "%s:%s->%s" % (
-                s["k"],
-                "|".join(sorted(a["cls"] for a in allowed)),
-                cls,
+            # the stop request was due strictly first, yet something fired later in the same (busy) reactor
+            # iteration became the result
+            late = (
+                s["busyAt"] != 99
+                and [a["cls"] for a in allowed] == ["NoResultError"]
+                and cls in ("value", "exception", "TimeoutError")
             )
+            if stale and h["run"] > 1:
+                key = "stale-result-of-previous-run"
+            elif late:
+                key = "stop-first-overridden-by-later-event-in-same-iteration"
+            else:
+                key = "%s:%s->%s" % (s["k"], "|".join(sorted(a["cls"] for a in allowed)), cls)
             bad.append(("result", allowed, obs, "run%d:%s" % (min(h["run"], 2), key)))
         self.results.append((cls, obs_obj))
         if s["reenter"] and st["ran"] and st["inner"] != "ReentryError":
@@ -320,9 +339,32 @@ def replay(hist, idx, real=False, unit=1):
 def nontrivial_key(hist):
     """Non-trivial: a Deferred-returning f with a competing timeout/stop, or leftovers, or reuse."""
     s = hist[0]["s"]
-    if len(hist) > 1 or (s["k"] in ("dfire", "dfail", "never")) or hist[0]["left"]:
+    if len(hist) > 1 or (s["k"] in ("dfire", "dfail", "never")) or hist[0]["left"] or s["busyAt"] != 99:
         return jdump([(h["s"], h["clr"], h["inst"]) for h in hist])
     return None
+
+
+def wide(s):
+    """All event times of the scenario pairwise distinct (>= 1 unit apart): fit for a wall-clock reactor."""
+    fn_t = 0 if s["k"] in ("ret", "raise", "dnowok", "dnowerr") else (s["d"] if s["k"] in ("dfire", "dfail") else None)
+    ts = [t for t in (fn_t, s["T"], None if s["stopAt"] == 99 else s["stopAt"]) if t is not None]
+    ts += list(s["extra"]) + ([] if s["busyAt"] == 99 else [s["busyAt"]])
+    return len(set(ts)) == len(ts)
+
+
+def real_sample(behaviours, seed):
+    """A handful of single-run scenarios for the private SelectReactor: one per (f kind, which event is first,
+    leftovers, busy) class, rotating with the seed."""
+    classes = {}
+    for h in behaviours:
+        s = h[0]["s"]
+        if len(h) != 1 or not wide(s) or s["reenter"] or s["T"] > 2 or s["d"] > 3 or (s["busyAt"] != 99 and s["busyDt"] > 3):
+            continue
+        if s["busyAt"] != 99 and (s["k"] not in ("dfire", "dfail") or s["d"] <= s["T"] or s["stopAt"] != 99):
+            continue  # busy: only "the Deferred fires/fails after the timeout, in the same iteration"
+        key = (s["k"], "|".join(sorted(a["cls"] for a in h[0]["allowed"])), bool(s["extra"]), s["sel"], s["busyAt"] != 99)
+        classes.setdefault(key, []).append(h)
+    return [v[seed % len(v)] for _, v in sorted(classes.items())]
 
 
 def abstract(hist):
@@ -330,9 +372,10 @@ def abstract(hist):
     for h in hist:
         s = h["s"]
         out.append(
-            "run%d%s: f=%s(d=%s,%s) T=%s extra=%s sel=%s stopAt=%s reenter=%s -> allowed %s"
+            "run%d%s: f=%s(d=%s,%s) T=%s extra=%s sel=%s stopAt=%s reenter=%s busy=%s -> allowed %s"
             % (h["run"], " after clear_junk" if h["clr"] else "", s["k"], s["d"], s["v"], s["T"], s["extra"], s["sel"],
                "-" if s["stopAt"] == 99 else s["stopAt"], s["reenter"],
+               "-" if s["busyAt"] == 99 else "%s+%s" % (s["busyAt"], s["busyDt"]),
                "|".join(sorted(a["cls"] + ("(" + a["val"] + ")" if a["val"] != "-" else "") for a in h["allowed"])))
         )  # fmt: skip
     return out
@@ -361,13 +404,23 @@ def run(tier, pid="C15"):
                "instance attribute) are pre-installed is cycled by the driver; the model treats them symbolically")  # fmt: skip
     rep.assume("reactor-internal readers (twisted.internet.* wakers) are not counted as leftover selectables")
 
-    # the asCoded variant must violate SecondRun in the spec (witness that the model can express the defect)
-    r = tlc.run_tlc("twisted", "MCSpinner", "sp_Bcoded.cfg", workers=8, timeout=600)
-    if r.violated != "SecondRun":
-        raise tlc.MachineryError("C15: asCoded variant did not violate SecondRun (violated=%s error=%s)" % (r.violated, r.error))
-    rep.extra["ascoded_counterexample"] = "TLC: SecondRun violated with ResetsResult=FALSE (sp_Bcoded.cfg)"
+    # the asCoded variants must violate the property in the spec (witness that the model can express the defects)
+    # (thorough tier only: each is one more JVM start)
+    coded = []
+    if tier != "quick":
+        coded = [
+            ("sp_Ccoded.cfg", "ResultRight", "LateIgnored=FALSE"),
+            ("sp_Bcoded.cfg", "SecondRun", "ResetsResult=FALSE (the code before fix 52cf306)"),
+        ]
+    rep.extra["ascoded_counterexamples"] = []
+    for cfg, inv, what in coded:
+        r = tlc.run_tlc("twisted", "MCSpinner", cfg, workers=4, timeout=600)
+        if r.violated != inv:
+            raise tlc.MachineryError("C15: %s did not violate %s (violated=%s error=%s)" % (cfg, inv, r.violated, r.error))
+        rep.extra["ascoded_counterexamples"].append("TLC: %s violated with %s (%s)" % (inv, what, cfg))
 
-    jobs = [("sp_A.cfg", False), ("sp_B.cfg", False), ("sp_R.cfg", True)]
+    # quick: the real-reactor sample is drawn from sp_A's single-run scenarios (wide gaps only), no extra TLC run
+    jobs = [("sp_A.cfg", "both"), ("sp_B.cfg", False)]
     if tier != "quick":
         jobs = [("sp_AT.cfg", False), ("sp_B.cfg", False), ("sp_BT.cfg", False), ("sp_R.cfg", True)]
     old = {sig: signal.getsignal(sig) for _, sig in SIGS}
@@ -381,12 +434,16 @@ def run(tier, pid="C15"):
             behaviours = sorted(tlc.exported(r), key=jdump)
             if not behaviours:
                 raise tlc.MachineryError("C15 %s exported no scenarios" % cfg)
-            if real and tier == "quick":
-                behaviours = behaviours[rep.seed % 3 :: 3]
+            todo = [(False, h) for h in behaviours] if real is not True else []
+            if real == "both":
+                todo += [(True, h) for h in real_sample(behaviours, rep.seed)]
+            elif real:
+                todo += [(True, h) for h in behaviours]
             gc.collect()
-            for idx, hist in enumerate(behaviours):
+            first_real = True
+            for idx, (is_real, hist) in enumerate(todo):
                 idx2 = idx + rep.seed
-                if real:
+                if is_real:
                     bad, obs, drifts = replay(hist, idx2, real=True, unit=0.04)
                     if bad:  # wall-clock noise is not a violation: it must reproduce with 4x wider gaps
                         bad, obs, drifts = replay(hist, idx2, real=True, unit=0.16)
@@ -394,11 +451,12 @@ def run(tier, pid="C15"):
                     bad, obs, drifts = replay(hist, idx2)
                 nk = nontrivial_key(hist)
                 rep.case(
-                    sample={"reactor": "SelectReactor" if real else "virtual", "scenario": abstract(hist), "observed": obs}
-                    if nk and (rep.evaluations % 4001 == 17 or (real and idx == 1))
+                    sample={"reactor": "SelectReactor" if is_real else "virtual", "scenario": abstract(hist), "observed": obs}
+                    if nk and (rep.evaluations % 4001 == 17 or (is_real and first_real))
                     else None,
-                    nontrivial_key=(("real:" if real else "") + nk) if nk else None,
+                    nontrivial_key=(("real:" if is_real else "") + nk) if nk else None,
                 )
+                first_real = first_real and not (is_real and nk)
                 rep.traces += 1
                 for d in drifts:
                     rep.note_drift(d)
@@ -411,7 +469,7 @@ def run(tier, pid="C15"):
                     rep.violation(
                         clause,
                         sig,
-                        {"hist": hist[:runi], "idx": idx2, "real": real, "cfg": cfg},
+                        {"hist": hist[:runi], "idx": idx2, "real": is_real, "cfg": cfg},
                         expected=exp,
                         observed=ob,
                     )
